@@ -50,14 +50,74 @@ Proof. vm_compute. reflexivity. Qed.
 
 (* unresolved import: the resolver, else an error *)
 Example resolver_used :
-  snd (step init (Load B)) = OOk /\
-  snd (step (fst (step init (Load B))) (Link resolve_all))
+  snd (step true init (Load B)) = OOk /\
+  snd (step true (fst (step true init (Load B))) (Link resolve_all))
   = OLinked [(0, [(KImport, 0, Some (DExt 100))])] [(0, 100)].
 Proof. vm_compute. split; reflexivity. Qed.
 
 Example unresolved_is_error :
-  snd (step (fst (step init (Load B))) (Link no_resolver)) = OErr EUndeclaredOpRef.
+  snd (step true (fst (step true init (Load B))) (Link no_resolver)) = OLinkFailed [].
 Proof. vm_compute. reflexivity. Qed.
+
+(* ---- histories that go on after an error *)
+
+(* a rejected second version: the importer loaded afterwards is bound to the FIRST version *)
+Definition h_rej : list op := [Load A; Load A; Load B; Link no_resolver].
+
+Example h_rej_trace :
+  snd (run h_rej)
+  = [(Load A, OOk); (Load A, OErr ERepeatedDecl); (Load B, OOk);
+     (Link no_resolver, OLinked [(0, [(KExport, 0, Some (DMod 0 1 KFunc))]);
+                                 (2, [(KImport, 0, Some (DMod 0 1 KFunc))])] [])].
+Proof. vm_compute. reflexivity. Qed.
+
+(* the pinned tree (no fixes/C13-1.patch) binds it to the function of the REJECTED module *)
+Example h_rej_pinned :
+  snd (run_pinned h_rej)
+  = [(Load A, OOk); (Load A, OErr ERepeatedDecl); (Load B, OOk);
+     (Link no_resolver, OLinked [(0, [(KExport, 0, Some (DMod 0 1 KFunc))]);
+                                 (2, [(KImport, 0, Some (DMod 1 1 KFunc))])] [])].
+Proof. vm_compute. reflexivity. Qed.
+
+(* a failed link keeps the queue and what the resolver supplied; the next link binds everything *)
+Definition only1 : resolver := fun n => if Nat.eqb n 1 then Some 101 else None.
+Definition h_retry : list op :=
+  [Load [(KImport, 1); (KImport, 0)]; Link only1; LoadExternal 0 3; Link no_resolver].
+
+Example h_retry_trace :
+  snd (run h_retry)
+  = [(Load [(KImport, 1); (KImport, 0)], OOk); (Link only1, OLinkFailed [(1, 101)]);
+     (LoadExternal 0 3, OOk);
+     (Link no_resolver, OLinked [(0, [(KImport, 1, Some (DExt 101)); (KImport, 0, Some (DExt 3))])] [])].
+Proof. vm_compute. reflexivity. Qed.
+
+Example h_retry_queue :
+  to_link (fst (run [Load B; Link no_resolver])) = pending (snd (run [Load B; Link no_resolver]))
+  /\ length (to_link (fst (run [Load B; Link no_resolver]))) = 1
+  /\ to_link (fst (run h_retry)) = [].
+Proof. vm_compute. repeat split; reflexivity. Qed.
+
+(* MIR_link with a NULL set_interface binds but keeps the modules queued: the next link binds them
+   again, to what is latest THEN *)
+Definition h_null : list op :=
+  [SetRedef true; Load A; Load B; LinkNoIface no_resolver; Load A; Link no_resolver].
+
+Example h_null_trace :
+  snd (run h_null)
+  = [(SetRedef true, OOk); (Load A, OOk); (Load B, OOk);
+     (LinkNoIface no_resolver, OBound [(0, [(KExport, 0, Some (DMod 0 1 KFunc))]);
+                                       (1, [(KImport, 0, Some (DMod 0 1 KFunc))])] []);
+     (Load A, OOk);
+     (Link no_resolver, OLinked [(0, [(KExport, 0, Some (DMod 0 1 KFunc))]);
+                                 (1, [(KImport, 0, Some (DMod 2 1 KFunc))]);
+                                 (2, [(KExport, 0, Some (DMod 2 1 KFunc))])] [])].
+Proof. vm_compute. reflexivity. Qed.
+
+(* the hypotheses of the all-histories theorems are met by histories with failing steps *)
+Example builds_witness : Forall builds h_rej /\ Forall builds h_retry /\ Forall builds h_null.
+Proof.
+  repeat split; repeat constructor; try (eexists; vm_compute; reflexivity).
+Qed.
 
 (* the hypotheses of link_redef_rejected are met by a reachable state *)
 Example redefines_witness :
@@ -65,3 +125,22 @@ Example redefines_witness :
   /\ dead (fst (run [Load A])) = false
   /\ redef_of (snd (run [Load A])) = false.
 Proof. vm_compute. repeat split; reflexivity. Qed.
+
+
+(* On the pinned tree a rejected load is NOT without effect: the table of globals already holds the
+   rejected module's function (MIR_load_module checks after setup_global). *)
+Lemma rejected_load_pinned_refuted_proof :
+  exists s ds e, dead s = false /\ (exists m, build ds = inl m) /\
+    snd (step false s (Load ds)) = OErr e /\ env (fst (step false s (Load ds))) <> env s.
+Proof.
+  exists (fst (run [Load A])), A, ERepeatedDecl.
+  split; [vm_compute; reflexivity|]. split; [eexists; vm_compute; reflexivity|].
+  split; [vm_compute; reflexivity|]. vm_compute. discriminate.
+Qed.
+
+(* ... and a module linked later is bound to a function whose module was never queued *)
+Lemma rejected_load_pinned_binding_refuted_proof :
+  exists h, Forall builds h /\ linked (fst (run_pinned h)) <> linked (fst (run h)).
+Proof.
+  exists h_rej. split; [apply builds_witness|]. vm_compute. discriminate.
+Qed.
